@@ -61,6 +61,7 @@ class Index:
         self._kw: Dict[str, List[Site]] = {}
         self._attrstore: Dict[str, List[Site]] = {}
         self._ctor: Dict[str, List[Site]] = {}
+        self._kw_ctor: Dict[str, List[Site]] = {}
         self._built = False
 
     def _build(self):
@@ -78,6 +79,11 @@ class Index:
                     for kw in n.keywords:
                         if kw.arg:
                             self._kw.setdefault(kw.arg, []).append(Site(m, fn, n, "kwwrite"))
+                        elif nm in ("_replace", "replace", "_make"):
+                            # x._replace(**computed): the fields written are not visible in the text -> a writer of every field
+                            self._kw.setdefault("*", []).append(Site(m, fn, n, "kwwrite-dynamic"))
+                        elif nm and nm[:1].isupper():
+                            self._kw_ctor.setdefault(nm, []).append(Site(m, fn, n, "kwwrite-dynamic"))
                     if nm in ("setattr", "__setattr__") and len(n.args) >= 2:
                         a = n.args[-2] if nm == "__setattr__" or len(n.args) == 3 else None
                         if isinstance(a, ast.Constant) and isinstance(a.value, str):
@@ -111,8 +117,17 @@ class Index:
         return [s for s in self._by_name.get(name, []) if s.kind == "nameref"]
 
     def kw_writes(self, field: str) -> List[Site]:
+        """keyword writes `field=` in calls, plus the dynamic writers: `_replace(**d)` (any field) and `Cls(**d)` when the
+        class declares the field"""
         self._build()
-        return list(self._kw.get(field, []))
+        out = list(self._kw.get(field, [])) + list(self._kw.get("*", []))
+        for cname, sites in self._kw_ctor.items():
+            for m in self.repo.modules.values():
+                c = m.classes.get(cname)
+                if c is not None and field in c.field_annotations():
+                    out += sites
+                    break
+        return out
 
     def attr_stores(self, field: str) -> List[Site]:
         self._build()
